@@ -356,8 +356,13 @@ func c02Deliver(c *fw.C, P, F *simnet.Node, sched string, r *rand.Rand, gossip [
 			}
 		case "restarts":
 			if r.Intn(3) == 0 {
-				F.Restart()
-				c.Count("follower_restarts", 1)
+				if r.Intn(2) == 0 {
+					F.Restart()
+					c.Count("follower_restarts", 1)
+				} else {
+					F.RestartFresh()
+					c.Count("follower_restarts_with_deleted_consensus_cache", 1)
+				}
 			}
 		}
 		batch := simnet.CloneBatch(P.Range(h+1, to))
